@@ -356,6 +356,9 @@ def explore(repo, body, typed=True, max_paths=4096, intercept=None):
         try:
             res = body(sc)
             out.append((ch, sc, res, None))
+        except AnalysisError as ae:
+            ae.scenario = sc          # (events recorded before the analysis gave up may already decide a rule)
+            raise
         except Fork:
             stack.append(ch + [False])
             stack.append(ch + [True])
